@@ -5,7 +5,7 @@
    (b) protocol model: every request leaves the retry counter at 0; in sequential runs it is 0 whenever no request is in
        progress, and never exceeds the configured budget. *)
 From Coq Require Import ZArith List Bool Arith.
-From GW Require Import FlowGen Proto ProtoEvolves ProtoProps ProtoBound.
+From GW Require Import FlowGen Proto ProtoEvolves ProtoProps ProtoBound Coroutines CoroutineGen CoroutineRefine.
 Import ListNotations.
 
 Theorem C05_entry_points_pass_timeout_and_retries :
@@ -31,9 +31,15 @@ Theorem C05_budget_is_the_configured_one : forall es k ka r s acts,
   run (init k ka r) es = Some (s, acts) -> (s_retry s <= s_retries s)%nat /\ s_retries s = r /\ s_kind s = k.
 Proof. exact retry_bounded. Qed.
 
+(* the finally clause of ProtocolCommand.execute (reset of the retry counter, then close unless keep-alive), as emitted from the current
+   source by tools/co2v.py, determines how the model ends a request *)
+Theorem C05_execute_finally_is_the_model : forall s k r, exec_finish s k r = g_exec_finish execute_shape s k r.
+Proof. exact exec_finish_refined. Qed.
+
 Print Assumptions C05_entry_points_pass_timeout_and_retries.
 Print Assumptions C05_search_one_transmission_one_second.
 Print Assumptions C05_all_sites.
 Print Assumptions C05_request_leaves_budget_full.
 Print Assumptions C05_idle_means_fresh_budget.
 Print Assumptions C05_budget_is_the_configured_one.
+Print Assumptions C05_execute_finally_is_the_model.
